@@ -227,7 +227,7 @@ func genJSONEnv(rng *PRNG, feats jsonFeats) *jsonEnv {
 		n := fmt.Sprintf("Arr%c", 'A'+i)
 		var items *JS
 		if rng.Bool() {
-			items = &JS{Kind: Pick(rng, primKinds)}
+			items = &JS{Kind: Pick(rng, primKinds), Nullable: feats.nullablePrim && rng.Chance(1, 3)}
 		} else {
 			items = &JS{Kind: "ref", Ref: Pick(rng, objNames)}
 		}
